@@ -249,7 +249,8 @@ func (ir *ifdReader) readSubIfds(t Tag) {
 			}
 			return
 		}
-		for i := 0; i < int(t.UnitCount); i++ {
+		// Limited to 6 SubIfds (SubIfd0 to SubIfd5) and to the offsets actually read
+		for i := 0; i < int(t.UnitCount) && i < 6 && 4*i+4 <= len(buf); i++ {
 			ir.addTagBuffer(NewTag(t.ID, tag.TypeIfd, tag.TypeIfdSize, t.ByteOrder.Uint32(buf[4*i:]), ifds.SubIfd0+ifds.IfdType(i), 0, t.ByteOrder))
 		}
 	}
